@@ -1,6 +1,106 @@
+import HranoModel.Model.Callback
 import HranoModel.Model.Options
-import HranoModel.Model.Sink
-import HranoModel.Model.Chan
-/-! C08 property theorems (statements only in this file; helper lemmas live in Lemmas/) -/
+import HranoModel.Lemmas.Errors
+/-!
+C08 — no input makes a command crash or hang.
+
+Property theorems only.  What a proof about the model can say here:
+* every function of the model is total (accepted by Lean's termination checker with the code's own
+  argument: lines of the file, the fuel `maxDepth − level`, the path of a name, the children of a node),
+  so `App.run` returns an outcome for every input — there is no theorem to state beyond its type;
+* the recursion of the resolver is bounded by `maxDepth`, which `validateOptions` bounds (fix recorded in
+  known-findings.txt);
+* no parser callback touches the record when the parser delivered an error (the defect class found in
+  `csv database` and `stats`), stated on the explicit `Delivery` model of the callback contract;
+* the parser emits at most one event per line plus the final flush.
+Partial by nature: real stack exhaustion, allocation failure and third-party code (`regexp`, `naturaldate`)
+are outside the model; the C08 check fuzzes them.
+-/
 namespace Hrano.C08
+open Hrano Hrano.Callback
+
+/-- **No callback dereferences a nil record**: for every event the parser can deliver, every consumer either
+    continues or stops with an error. -/
+theorem callbacks_never_panic (layout : Layout) (ev : Event) :
+    loadBook (deliver ev) ≠ .panic ∧ walk layout (deliver ev) ≠ .panic ∧ csvDatabase (deliver ev) ≠ .panic
+    ∧ statsLog (deliver ev) ≠ .panic ∧ statsDb (deliver ev) ≠ .panic ∧ lint (deliver ev) ≠ .panic
+    ∧ parseStream (deliver ev) ≠ .panic := by
+  cases ev with
+  | node n =>
+    refine ⟨by simp [loadBook, deliver, useNode], ?_, by simp [csvDatabase, deliver, useNode], by simp [statsLog, deliver, useNode],
+      by simp [statsDb, deliver], by simp [lint], by simp [parseStream, deliver, useNode]⟩
+    simp only [walk, deliver, useNode]
+    cases Date.parse layout n.header <;> simp
+  | error e =>
+    exact ⟨by simp [loadBook, deliver], by simp [walk, deliver], by simp [csvDatabase, deliver], by simp [statsLog, deliver],
+      by simp [statsDb, deliver], by simp [lint], by simp [parseStream, deliver]⟩
+
+/-- the parser always delivers exactly one of (record, error) -/
+theorem delivery_exclusive (ev : Event) : ((deliver ev).node.isSome ∧ (deliver ev).err.isNone) ∨ ((deliver ev).node.isNone ∧ (deliver ev).err.isSome) := by
+  cases ev <;> simp [deliver]
+
+/-- the resolve depth a command runs with is bounded (recursion depth of the resolver = depth limit) -/
+theorem depth_is_bounded (s : Settings) (ld : Options.Loaded) (h : Options.load s = .ok ld) :
+    ld.opts.maxDepth ≤ Options.maxAllowedDepth := by
+  unfold Options.load at h
+  split at h
+  · cases h
+  · cases hl : Date.parseLayout (Options.effective s).fmtRaw with
+    | none => rw [hl] at h; cases h
+    | some layout =>
+      rw [hl] at h
+      simp only at h
+      cases hn : Options.nowOf s layout with
+      | error e => rw [hn] at h; cases h
+      | ok now =>
+        rw [hn] at h
+        simp only at h
+        cases hb : Options.boundsOf s now layout with
+        | error e => rw [hb] at h; cases h
+        | ok bnd =>
+          rw [hb] at h
+          simp only at h
+          cases hv : Options.validate s (Options.effective s) with
+          | error e => rw [hv] at h; cases h
+          | ok u =>
+            rw [hv] at h
+            simp only at h
+            cases hc : Options.cmdOf s now layout with
+            | error e => rw [hc] at h; cases h
+            | ok cmd =>
+              rw [hc] at h
+              simp only [Except.ok.injEq] at h
+              subst h
+              simp only
+              unfold Options.validate at hv
+              split at hv
+              · cases hv
+              · omega
+
+/-- the parser emits at most one event per line, plus the final flush -/
+theorem parse_total (cc : UInt8) (fin : Bool) : ∀ (ls : List Bytes) (cur : Option Node) (ln : Nat),
+    (Parser.parseLines cc fin cur ln ls).length ≤ ls.length + 1 := by
+  intro ls
+  induction ls with
+  | nil => intro cur ln; cases fin <;> cases cur <;> simp [Parser.parseLines, Parser.flush]
+  | cons l r ih =>
+    intro cur ln
+    unfold Parser.parseLines
+    cases Parser.classify cc l with
+    | skip => simp only; have := ih cur (ln + 1); simp only [List.length_cons]; omega
+    | heading h =>
+      simp only [List.length_append, List.length_cons]
+      have := ih (some ⟨h, [], []⟩) (ln + 1)
+      cases cur <;> simp [Parser.flush] <;> omega
+    | indented k =>
+      cases cur with
+      | none => simp only [List.length_cons]; have := ih none (ln + 1); omega
+      | some n =>
+        cases k with
+        | note m => simp only [List.length_cons]; have := ih (some { n with notes := n.notes ++ [m] }) (ln + 1); omega
+        | badSyntax => simp only [List.length_cons]; have := ih (some n) (ln + 1); omega
+        | conversion t => simp only [List.length_cons]; have := ih (some n) (ln + 1); omega
+        | entry name v => simp only [List.length_cons]; have := ih (some { n with elements := n.elements ++ [⟨name, v⟩] }) (ln + 1); omega
+        | entryNonFinite name => simp only [List.length_cons]; have := ih (some { n with elements := n.elements ++ [⟨name, 0⟩] }) (ln + 1); omega
+
 end Hrano.C08
